@@ -416,10 +416,17 @@ func specC13(r *hlib.Rng, res *hlib.Result) (string, []string) {
 	}
 	for i := 0; i < nops; i++ {
 		if i == failAt {
-			if _, _, ferr := src.tree.Commit(ctx, testNs, src.version+3); ferr == nil {
-				return "spec-c13-error: a commit into a version that does not follow the old root was accepted", trace
+			// either a version that does not follow the old root (refused when the batch is opened) or the
+			// version of the old root itself, which is already finalized (refused by batch.Commit, after
+			// the dirty nodes were handed to the batch)
+			badV := src.version + 3
+			if r.Bool() && src.version > 0 {
+				badV = src.last.Version
 			}
-			trace = append(trace, fmt.Sprintf("commit-at-version %d (rejected by the database)", src.version+3))
+			if _, _, ferr := src.tree.Commit(ctx, testNs, badV); ferr == nil {
+				return fmt.Sprintf("spec-c13-error: a commit into version %d (old root at %d, finalized) was accepted", badV, src.last.Version), trace
+			}
+			trace = append(trace, fmt.Sprintf("commit-at-version %d (rejected by the database)", badV))
 			res.Count("spec:c13-rejected-commit-then-retry")
 		}
 		k := pool[r.Intn(len(pool))]
@@ -453,6 +460,19 @@ func specC13(r *hlib.Rng, res *hlib.Result) (string, []string) {
 	}
 	r2 := src.last
 	bContents := cur
+	if src.ndb != nil {
+		// the committed root must read back completely from the source database (in particular after a
+		// rejected commit was retried on the same tree)
+		rt := mkvs.NewWithRoot(nil, src.ndb, r2)
+		got, rerr := treeContents(rt)
+		rt.Close()
+		if rerr != nil {
+			return fmt.Sprintf("spec-c13-committed-root-unreadable: reading root %s back from the database it was committed to: %v (rejected commits before: %v)", r2.Hash, rerr, failAt >= 0), trace
+		}
+		if got.String() != bContents.String() {
+			return fmt.Sprintf("spec-c13-committed-root-wrong-contents: root %s reads %v, committed %v (rejected commits before: %v)", r2.Hash, got, bContents, failAt >= 0), trace
+		}
+	}
 	var wlDB writelog.WriteLog
 	if !r1.Hash.Equal(&r2.Hash) {
 		it, err := src.ndb.GetWriteLog(ctx, r1, r2)
@@ -707,6 +727,8 @@ func runSpecOnce(kind string, state uint64, res *hlib.Result) (d string, trace [
 			d, trace = specFault(kind, r, res)
 		case "c02faultall", "c03faultall":
 			d, trace = specFaultAll(kind, r, state == 0, res)
+		case "c13retry":
+			d, trace = specRetryFixed(res)
 		case "c03nilkey":
 			d, trace = specNilKey(res)
 		case "c03nilval":
@@ -785,6 +807,9 @@ func runSpec(rng *hlib.Rng, n int, focus string, res *hlib.Result) {
 		// every single write x every fault position on a fixed tree with a prefix chain
 		runSpecCase(focus+"faultall", 0, res)
 	}
+	if focus == "c13" && n > 0 {
+		runSpecCase("c13retry", 0, res)
+	}
 	if focus == "c03" && n > 0 {
 		runSpecCase("c03nilkey", 0, res)
 		runSpecCase("c03nilval", 0, res)
@@ -826,4 +851,62 @@ func replaySpec(ops []string, res *hlib.Result) {
 		return
 	}
 	runSpecCase(w[1], st, res)
+}
+
+
+// specRetryFixed: a Commit that the database rejects at batch.Commit — after the dirty nodes were handed
+// to the batch (the version is already finalized) — must leave the tree committable: more writes, then a
+// proper Commit, and the committed root reads back completely. On the path-keyed backend the rejected
+// batch used to leave the positions it had assigned in the tree's pointers (fixed in /repo, see
+// known-findings.txt): the retried commit stored nodes under colliding positions or failed with "no new
+// root node, but new root hash not equal to old".
+func specRetryFixed(res *hlib.Result) (string, []string) {
+	for _, backend := range []string{"badgermem", "pathbadgermem"} {
+		im := newImpl(backend, 0, 0)
+		trace := []string{"new " + backend}
+		fail := func(f string, a ...any) (string, []string) {
+			im.close()
+			return fmt.Sprintf("spec-c13-committed-root-unreadable: %s: %s", backend, fmt.Sprintf(f, a...)), trace
+		}
+		want := contents{}
+		put := func(k, v []byte) error {
+			want[string(k)] = v
+			trace = append(trace, "insert "+hx(k)+" "+hx(v))
+			return im.tree.Insert(ctx, k, v)
+		}
+		// (the history is a minimised generated one: an empty first version, a batch with one insert,
+		// the rejected commit, then a batch that adds three keys)
+		if _, _, err := im.commit(); err != nil {
+			return fail("first commit: %v", err)
+		}
+		trace = append(trace, "commit")
+		if err := put([]byte{0xbe, 0xee, 0xe9}, []byte{0x00}); err != nil {
+			return fail("%v", err)
+		}
+		if _, _, err := im.tree.Commit(ctx, testNs, im.last.Version); err == nil {
+			return fail("a commit into the finalized version %d was accepted", im.last.Version)
+		}
+		trace = append(trace, fmt.Sprintf("commit-at-version %d (rejected by the database)", im.last.Version))
+		for _, kv := range [][2][]byte{{{0xff}, {0x03}}, {{}, {0x02}}, {{0x01, 0x01}, {0xc0, 0x14, 0x99, 0xa7}}} {
+			if err := put(kv[0], kv[1]); err != nil {
+				return fail("%v", err)
+			}
+		}
+		if _, _, err := im.commit(); err != nil {
+			return fail("commit after a rejected commit on the same tree: %v", err)
+		}
+		trace = append(trace, "commit")
+		rt := mkvs.NewWithRoot(nil, im.ndb, im.last)
+		got, err := treeContents(rt)
+		rt.Close()
+		if err != nil {
+			return fail("reading the committed root back: %v", err)
+		}
+		if got.String() != want.String() {
+			return fail("the committed root reads %v, committed %v", got, want)
+		}
+		im.close()
+		res.Count("spec:c13-retry-fixed-scenario:" + backend)
+	}
+	return "", nil
 }
